@@ -71,6 +71,10 @@ CHECKS = {
    text="Remodel.tla gives the 8 non-summary operations as functions of (parameters, table) from their documented meaning (ok table / documented error / undefined), the remodeler's validation as a predicate over the JSON specification (14 structural fault kinds + per-operation rules) and a dispatcher with persistent operation objects; TLC checks ParamsConstant, InputUnchanged, OrderIndependent, InvalidNeverExecutes, ValidImpliesRuns, ResultsWellFormed and rejects two leaky variants; every emitted case (op list with all flag settings / omitted optionals, 1-3 tables, processing order, expected table per step; 13k quick, 103k thorough) is replayed through RemodelerValidator and ONE Dispatcher per case (DataFrame and file paths), comparing results as text (n/a kept distinct from NaN), input frame / file bytes, ops JSON and operation attributes after every step; invalid lists go through run_remodel.main (must refuse, files untouched); seeded deeper runs are recorded and judged by TLC (Trace_Remodel)",
    note="built by a sub-agent under the same brief; readings more detailed than the documentation are flagged and only counted as spec drift; op-list space: all single ops x all tables, pairs from a pool, selected triples",
    technique="TLA+ spec + TLC model checking; exhaustive case replay; TLC trace validation"),
+ "C08": dict(
+   text="SidecarRules.tla models JSON documents (scalars of 9 kinds, lists, objects; depth <= 3 with a node budget), the code's column typing and the nine structural rules of the statement as predicates with places; TLC checks Total, TypingSound, GrammarBound, BaseClean, FaultExact (one injection breaks exactly its rule), FaultCode, FaultStays, and that dropping a rule violates FaultExact (3 sensitivity runs); every emitted document (72k grammar documents + injected faults over 433 clean bases; 56k replayed in quick, 215k thorough) is rendered with real 8.3.0 tags and run through Sidecar(...).validate: never raises; clean => no error; one-fault => an error with the rule's code",
+   note="built by a sub-agent under the same brief; codes for the HED-entry-type rule are an accepted set (the statement names none); reported column/key compared as drift only",
+   technique="TLA+ spec + TLC model checking; exhaustive document replay with TLC-computed verdict classes"),
 }
 ALL = ["C%02d" % i for i in range(1, 21)]
 m = {
